@@ -31,7 +31,7 @@ W1, W2, W3 = _mk('W1'), _mk('W2'), _mk('W3')
 NW = _mk('NW', wraps=False)
 CLASSES = [W1, W2, W3, NW]
 NC = len(CLASSES)
-LISTS = [[]] + [[i] for i in range(NC)] + [[i, j] for i in range(NC) for j in range(NC) if i != j]
+LISTS = [[]] + [[i] for i in range(NC)] + [[i, j] for i in range(NC) for j in range(NC) if i != j] + [[0, 1, 0], [2, 2]]
 NLISTS = len(LISTS)
 
 
@@ -45,32 +45,43 @@ def _inst(idx, level):
 
 
 def _wrapper_order(outer_i, emb_i, nroutes, with_emb):
+    """with_emb: 0 no embedded application, 1 one, 2 two sibling embedded applications (each with its own instances)"""
     del LOG[:]
     outer = _inst(LISTS[outer_i], 'o')
-    emb = _inst(LISTS[emb_i], 'e') if with_emb else []
+    embs = [_inst(LISTS[emb_i], 'e%d' % k) for k in range(with_emb)]
     routes = [Route('/r%d' % i, lambda: Response('ok')) for i in range(nroutes)]
-    if with_emb:
+    for k, emb in enumerate(embs):
         sub = Application([Route('/s', lambda: Response('sub'))], middlewares=emb)
-        routes.append(('/emb', sub))
+        routes.append(('/emb%d' % k, sub))
     app = Application(routes, middlewares=outer)
-    env = EnvironBuilder(path='/r0' if nroutes else ('/emb/s' if with_emb else '/nothing')).get_environ()
+    env = EnvironBuilder(path='/r0' if nroutes else ('/emb0/s' if with_emb else '/nothing')).get_environ()
     run_wsgi_app(app, env)
-    # expected: outer list first, then the embedded application's; a unique type once (outermost); wrappers only
-    merged = []
-    for m in outer + emb:
-        if any(type(x) is type(m) for x in merged):
-            continue
-        merged.append(m)
-    want = [m.tag for m in merged if hasattr(m, 'wsgi_wrapper')]
-    return LOG == want
+    # the embedding application's wrappers first, in list order, a unique type once ...
+    first = []
+    for m in outer:
+        if not any(type(x) is type(m) for x in first):
+            first.append(m)
+    want_outer = [m.tag for m in first if hasattr(m, 'wsgi_wrapper')]
+    if LOG[:len(want_outer)] != want_outer:
+        return False
+    # ... then the embedded applications': each remaining wrapping type exactly once, in its list order
+    rest = LOG[len(want_outer):]
+    types_rest = [t.split('@')[0] for t in rest]
+    want_types = []
+    for emb in embs[:1]:
+        for m in emb:
+            nm = type(m).__name__
+            if hasattr(m, 'wsgi_wrapper') and nm not in want_types and not any(type(x) is type(m) for x in first):
+                want_types.append(nm)
+    return types_rest == want_types
 
 
-def ob_wrapper_order(outer_i: int, emb_i: int, nroutes: int, with_emb: bool) -> bool:
+def ob_wrapper_order(outer_i: int, emb_i: int, nroutes: int, with_emb: int) -> bool:
     with untraced():
         return _wrapper_order(outer_i, emb_i, nroutes, with_emb)
 
 
-def tw_wrapper_order(outer_i: int, emb_i: int, nroutes: int, with_emb: bool) -> bool:
+def tw_wrapper_order(outer_i: int, emb_i: int, nroutes: int, with_emb: int) -> bool:
     with untraced():
         return _wrapper_order(outer_i, emb_i, nroutes, with_emb) and len(LOG) >= 3
 
@@ -250,3 +261,54 @@ def wsgi_validator_sweep():
                 except Exception as e:     # noqa
                     bad.append((path, method, repr(e)[:200]))
     return n, bad
+
+
+# ------------------------------------------------------------------ close() releases every file that was opened
+def _files_released(file_i, ims_rel, method_i, via_route):
+    import clastic.static as ST
+    from clastic.static import StaticApplication, StaticFileRoute
+    import tempfile, os, shutil, email.utils
+    d = tempfile.mkdtemp(prefix='verif_c13_')
+    opened = []
+    try:
+        name = ['a.txt', 'noext', 'b.bin'][file_i]
+        path = os.path.join(d, name)
+        open(path, 'wb').write(b'hello\x00' if file_i == 2 else b'hello')
+        os.utime(path, (1500000000, 1500000000))
+        if via_route:
+            app = Application([StaticFileRoute('/f', path)])
+            url = '/f'
+        else:
+            app = Application([('/static/', StaticApplication(d))])
+            url = '/static/' + name
+        real_open = open
+
+        def tracking_open(p, mode='r', *a, **k):
+            f = real_open(p, mode, *a, **k)
+            opened.append(f)
+            return f
+        hdrs = {}
+        if ims_rel is not None:
+            hdrs['If-Modified-Since'] = email.utils.formatdate(1500000000 + ims_rel, usegmt=True)
+        env = EnvironBuilder(path=url, method=['GET', 'HEAD'][method_i], headers=hdrs).get_environ()
+        ST.open = tracking_open
+        try:
+            app_iter, status, headers = run_wsgi_app(app, env)
+            body = b''.join(app_iter)
+            if hasattr(app_iter, 'close'):
+                app_iter.close()
+        finally:
+            del ST.open
+        return all(f.closed for f in opened) and status[:3] in ('200', '304')
+    finally:
+        shutil.rmtree(d, True)
+
+
+def ob_files_released(file_i: int, ims_sel: int, method_i: int, via_route: bool) -> bool:
+    """static responses: whatever the outcome (200, 304, HEAD), close() of the returned iterable leaves no opened file open"""
+    with untraced():
+        return _files_released(file_i, [None, -10, 0, 10][ims_sel], method_i, via_route)
+
+
+def confirm_files_released(file_i, ims_sel, method_i, via_route):
+    return not _files_released(file_i, [None, -10, 0, 10][ims_sel], method_i, via_route)
